@@ -360,8 +360,10 @@ def gen_cases(rng, tier):
             cases.append((L('rt', fmt, DOC(b'1.5', b'\xbb\xad\xc0\xde', [(b'Root', REF(1, 0))],
                                            [((1, 0), D([(b'Type', N(b'Catalog'))])), ((2, 0), I(7)), ((3, 1), ST([(b'Length', I(2))], b'ab'))], mx)),
                           {'kind': 'rt-stale-max-id', 'nontrivial': True}))
-    # container nesting around the reader's limit (100 levels): 101 and deeper is the known finding C01-deep-nesting
-    for depth in (99, 100, 101, 102, 130) if tier == 'quick' else (1, 50, 99, 100, 101, 102, 103, 130, 200, 400):
+    # container nesting around the reader's limit (reader::MAX_NESTING levels, 16 since /repo ce95661): one more and deeper is the
+    # known finding C01-deep-nesting
+    M = MAX_DEPTH
+    for depth in (M - 1, M, M + 1, M + 2, M + 30, 101) if tier == 'quick' else (1, M // 2, M - 1, M, M + 1, M + 2, M + 3, M + 30, 101, 200, 400):
         for kind in ('a', 'd', 'st', 'tr'):
             o = I(7)
             for _ in range(depth - (1 if kind in ('st', 'tr') else 0)):
@@ -445,12 +447,21 @@ def sx_nest(o):
     return 0
 
 
-MAX_DEPTH = 100   # reader::MAX_BRACKET; the Coq side reads it through Gen/Lex.v
+def _max_nesting():
+    """reader::MAX_NESTING of the repository under test (the Coq side reads the same constant through Gen/Lex.v)"""
+    src = open(os.path.join(vlib.REPO, 'src', 'reader.rs')).read()
+    m = re.search(r'pub const MAX_NESTING: usize = (\d+);', src)
+    if not m:
+        raise RuntimeError('props/c01.py: pub const MAX_NESTING not found in src/reader.rs')
+    return int(m.group(1))
+
+
+MAX_DEPTH = _max_nesting()
 
 
 def classify(line, tags, model_out, impl_out, verdict):
     """known-finding class, decided on the INPUT: C01-deep-nesting = some object or the trailer nests containers deeper than
-    MAX_BRACKET (mirrors KnownDeep in coq/Spec/SaveSpec.v)"""
+    reader::MAX_NESTING (mirrors known_deep in coq/Spec/SaveSpec.v)"""
     try:
         case = sx_parse(line)
         if case[0] not in ('save', 'rt') or case[2][0] != 'doc':
@@ -509,7 +520,7 @@ SPEC = {
                     'NOT derived from the first: normal forms and Size may differ in length), and for the stream format one spare object number '
                     'for the second cycle (cycles_fit). Loader model: Length given as a reference, object streams, filtered cross-reference '
                     'streams and Encrypt are answered (unmodelled) by Model/Loader.v (never reached by a file save wrote; counted in the notes). '
-                    'Open known finding: container nesting deeper than MAX_BRACKET is not reloaded (price of the repair 61b571d).',
+                    'Open known finding: container nesting deeper than reader::MAX_NESTING (16) is not reloaded (price of the repairs 61b571d / ce95661).',
 }
 
 MANIFEST = {
